@@ -2,7 +2,7 @@
 
 COMPONENTS = {
     "real": [
-        "aquatic_udp (all but the io_uring backend)", "aquatic_http and aquatic_ws (TLS and metrics features off)",
+        "aquatic_udp (all but the io_uring backend; prometheus feature on)", "aquatic_http and aquatic_ws (TLS off; prometheus / metrics features on)",
         "aquatic_common", "aquatic_udp_protocol / aquatic_http_protocol / aquatic_ws_protocol / aquatic_peer_id as used by the trackers",
         "tungstenite, httparse, serde_bencode, simd-json, blake3, indexmap, hashbrown, arc-swap, crossbeam-channel",
     ],
@@ -10,6 +10,7 @@ COMPONENTS = {
         "OS thread scheduling (baton engine)", "monotonic clock", "UDP sockets + SO_REUSEPORT distribution + dual-stack mapping",
         "TCP byte streams", "glommio executor / channels / timers (shims/glommio)", "signals", "file open/read/write/close steps",
         "OS entropy (getrandom custom backend)", "hashbrown's hash seed (vendored foldhash)",
+        "prometheus exporter thread (rt::metrics: bind + render ticks as seam calls; tokio / hyper not run)", "metrics recorder (sim/src/recorder.rs records gauges / counters)",
     ],
 }
 
@@ -120,8 +121,8 @@ PROPS = {
             "expect_probes": ["scrape-longer-than-limit"],
             "assumptions": ["mio backend's 8192-byte buffer only", "HTTP part pending HTTP-SYS"]},
     "C19": {"level": "fault_enumeration", "rule": _SYS_RULE + "; here 85% of the runs inject exactly one worker death: socket set-up failure, loop end, spawn failure, signal iterator closed, panic at the n-th seam call or at a given time, for every worker kind",
-            "expect_probes": ["worker-death-observed"],
-            "assumptions": ["prometheus worker not covered (feature off)", "time only advances when every simulated thread is blocked, so the 10 s bound is exact"]},
+            "expect_probes": ["worker-death-observed", "metrics-worker-death-observed"],
+            "assumptions": ["the metrics worker's body is a simulated thread (bind, render ticks); spawning, registering and watching it is the real run() code", "time only advances when every simulated thread is blocked, so the 10 s bound is exact"]},
     "C05": {"level": "exploration",
             "rule": ("one run = one generated sequence of clock advances, per-worker clock refreshes, id issues, honest checks (same / other "
                      "address, before / at / after expiry, stale or advanced worker clocks) and forgeries (1-bit, 2-bit, arbitrary, other "
@@ -192,7 +193,7 @@ TEXT = {
             "level_note": "mio backend; io_uring buffers are not exercised."},
     "C19": {"engine": "sim", "design_ref": "6.C19", "technique": "seeded deterministic simulation with worker-death fault enumeration",
             "level_text": "Fault enumeration: each worker kind x death mode x time is injected into the real run(config); run must return Err within 10 simulated seconds, and must never return without a death.",
-            "level_note": "Time advances only when all threads are blocked, so the bound is exact; prometheus worker not covered."},
+            "level_note": "Time advances only when all threads are blocked, so the bound is exact; the metrics (prometheus) worker is a simulated thread whose spawning, registration and watching by run() is real code."},
     "C05": {"engine": "sim", "design_ref": "6.C05", "technique": _SIM + " (simulated whole-second clock per worker, issue x check time grid, forgeries)",
             "level_text": "Seeded exploration of the real ConnectionValidator: several clones with independently sampled clocks, ages 0..u32::MAX, checks placed one second before / at / after expiry, wrong and IPv4-mapped addresses, four forgery kinds.",
             "level_note": "MAC guessing chance 2^-32 per forged id is handled by re-checking under a second key."},
